@@ -36,10 +36,11 @@ impl<'a> TxFreelist {
 
     pub(crate) fn free(&mut self, page_id: PageID, num_pages: u64) {
         debug_assert!(num_pages > 0, "cannot free zero pages");
-        vpoint!("fl:free", tx_id = self.meta.tx_id, page = page_id, n = num_pages);
+        vpoint!("fl:free_call", tx_id = self.meta.tx_id, page = page_id, n = num_pages);
         for id in page_id..(page_id + num_pages) {
             if self.freed.insert(id) {
                 self.inner.free(self.meta.tx_id, id);
+                vpoint!("fl:free", tx_id = self.meta.tx_id, page = id, n = 1);
             }
         }
     }
